@@ -324,8 +324,12 @@ Section Loader.
   Inductive mpd_obs :=
   | MReadErr                  (* fs.ReadFile fails *)
   | MBad                      (* not parsable, number of periods != 1, type != static *)
-  | MNoType (sets : list aset) (* one period, no type attribute: mpd.Type is nil *)
+  | MNoType (sets : list aset) (* static by default: one period, no type attribute (mpd.Type is nil) *)
+  | MNoDur (sets : list aset)  (* one period, static, no mediaPresentationDuration attribute *)
   | MOk (sets : list aset).
+
+  Definition mpd_sets (o : mpd_obs) : option (list aset) :=
+    match o with MOk s | MNoType s => Some s | _ => None end.
 
   Record asset := {
     a_mpds : list string;
@@ -414,17 +418,20 @@ Section Loader.
   (** loadAsset for one MPD of the asset [a] (already registered by addAsset).  The MPD, its new
       representations and SegmentDurMS are committed to the asset only when all of them loaded
       (newReps / segmentDurMS in the code); files written to the cache directory stay. *)
+  Definition load_mpd (md : lmode) (apath mpdName : string) (sets : list aset) (a : asset) (c : cache) : res lstate :=
+    let a1 := {| a_mpds := a_mpds a ++ [mpdName]; a_reps := a_reps a; a_segdur := a_segdur a;
+                 a_loop := a_loop a; a_ref := a_ref a |} in
+    do r <- load_sets md apath sets a1 c;
+    let '(a', c', e) := r in
+    Ok (match e with None => a' | Some _ => a end, c', e).
+
   Definition load_asset (md : lmode) (apath mpdName : string) (o : mpd_obs) (a : asset) (c : cache) : res lstate :=
     match o with
     | MReadErr => Ok (a, c, Some "read MPD")
     | MBad => Ok (a, c, Some "bad MPD")
-    | MNoType _ => Panic "loadAsset: invalid memory address or nil pointer dereference"   (* *mpd.Type *)
-    | MOk sets =>
-      let a1 := {| a_mpds := a_mpds a ++ [mpdName]; a_reps := a_reps a; a_segdur := a_segdur a;
-                   a_loop := a_loop a; a_ref := a_ref a |} in
-      do r <- load_sets md apath sets a1 c;
-      let '(a', c', e) := r in
-      Ok (match e with None => a' | Some _ => a end, c', e)
+    | MNoDur _ => Panic "loadAsset: invalid memory address or nil pointer dereference"   (* mpd.MediaPresentationDuration.String() *)
+    | MNoType sets => load_mpd md apath mpdName sets a c      (* a missing type attribute means "static" *)
+    | MOk sets => load_mpd md apath mpdName sets a c
     end.
 
   (** * setReferenceRep and consolidateAsset *)
